@@ -54,8 +54,8 @@ func (w *World) Constructor(name string, args []interp.Value) (interp.Value, boo
 	case "RandU":
 		dims := w.intsOf(args[0])
 		l, u := args[1].(interp.FloatV).E, args[2].(interp.FloatV).E
-		if !w.M.Branch(sym.RealLT(l, u)) {
-			return w.errResult("RandU: lower bound not below upper bound"), true
+		if sym.HasNaN(l) || sym.HasNaN(u) || !w.M.Branch(sym.RealLT(l, u)) {
+			return w.errResult("RandU: lower bound not below upper bound (NaN bounds are never ordered)"), true
 		}
 		if !w.allPositive(dims) {
 			return w.errResult("RandU: non-positive dimension"), true
@@ -71,8 +71,8 @@ func (w *World) Constructor(name string, args []interp.Value) (interp.Value, boo
 	case "RandN":
 		dims := w.intsOf(args[0])
 		s := args[2].(interp.FloatV).E
-		if !w.M.Branch(sym.RealGT(s, sym.Expr{})) {
-			return w.errResult("RandN: standard deviation not positive"), true
+		if sym.HasNaN(s) || !w.M.Branch(sym.RealGT(s, sym.Expr{})) {
+			return w.errResult("RandN: standard deviation not positive (NaN is not positive)"), true
 		}
 		if !w.allPositive(dims) {
 			return w.errResult("RandN: non-positive dimension"), true
